@@ -92,14 +92,17 @@ def run_k(ctx, kres):
     vs = k_suite(ctx, kres, "K03a-exhaustive", traces + extra, in_projection, sig_of=sig_of, shrink_budget=0)
     for v in vs:
         # re-locate: run again to find the line, cut the block
-        tr = next(t for t in traces + extra if t.ops == v.replay_text)
+        tr = next((t for t in traces + extra if v.replay_text.endswith(t.ops)), None)      # the replay text is the trace header + the op file
+        if tr is None:
+            viols.append(v); continue
         r = run_trace(tr)
         if r.mism:
             m = parse_mismatch(r.mism[0])
             cut = extract_block(tr, m["line"])
             r2 = run_trace(cut)
             if r2.mism and in_projection(parse_mismatch(r2.mism[0])):
-                v.replay_text = cut.ops
+                from ..main import trace_header
+                v.replay_text = trace_header(cut) + cut.ops
         viols.append(v)
     # --- K03c the shape of the session table ---
     from .. import gen2
